@@ -20,7 +20,7 @@ def reject_result(res):
     return {"discard": "crashed", "message": res.message, "classes": ["crash:" + res.exc_type]}
 
 
-def compare_named_outputs(prog, circ, ref_env, names, label="", check_type=True):
+def compare_named_outputs(prog, circ, ref_env, names, label="", check_type=True, lines_of=None):
     """Compare every named output with the reference. Returns (failures, n_checked, unobservable)."""
     fails, checked, unobs = [], 0, []
     decls = {s.name: s for s in prog.stmts if isinstance(s, lang.Decl)}
@@ -34,7 +34,7 @@ def compare_named_outputs(prog, circ, ref_env, names, label="", check_type=True)
 
     for name in names:
         want = ref_env.get(name)
-        o = obs.observe(circ, name)
+        o = obs.observe(circ, name, (lines_of or {}).get(name))
         if o is None:
             unobs.append(name)
             continue
